@@ -10,6 +10,8 @@ import (
 	"github.com/ipld/go-ipld-prime/linking"
 	cidlink "github.com/ipld/go-ipld-prime/linking/cid"
 	"github.com/ipld/go-ipld-prime/node/basicnode"
+	"github.com/ipld/go-ipld-prime/node/bindnode"
+	"github.com/ipld/go-ipld-prime/schema"
 	"github.com/ipld/go-ipld-prime/storage/memstore"
 	"github.com/ipld/go-ipld-prime/traversal"
 	"github.com/ipld/go-ipld-prime/traversal/selector"
@@ -261,6 +263,34 @@ func ReplayImmutable(cs *ImCase) (*run.Finding, int) {
 						e.AssignInt(3)
 					}
 				})
+			case "wrap-assign-mutate":
+				// {x: [1, 2]} as a Go value of the caller, wrapped; the wrapped node assigned into a builder of the
+				// same schema type and Go type; then the caller changes ITS OWN Go value (map, slice elements, slice
+				// header).  The node the builder returned is a copy and must not follow.
+				ts := new(schema.TypeSystem)
+				ts.Init()
+				ts.Accumulate(schema.SpawnInt("Int"))
+				ts.Accumulate(schema.SpawnString("String"))
+				ts.Accumulate(schema.SpawnList("Ints", "Int", false))
+				ts.Accumulate(schema.SpawnMap("MapOfInts", "String", "Ints", false))
+				type mapOfInts struct {
+					Keys   []string
+					Values map[string][]int64
+				}
+				g := &mapOfInts{Keys: []string{"x"}, Values: map[string][]int64{"x": append(make([]int64, 0, 8), 1, 2)}}
+				typ := ts.TypeByName("MapOfInts")
+				wrapped := bindnode.Wrap(g, typ)
+				nb := bindnode.Prototype((*mapOfInts)(nil), typ).NewBuilder()
+				if err := nb.AssignNode(wrapped); err != nil {
+					operr = err
+					return
+				}
+				made = nb.Build()
+				g.Values["x"][0] = 99
+				g.Values["x"] = append(g.Values["x"], 3)
+				g.Values["y"] = []int64{7}
+				g.Keys[0] = "q"
+				g.Keys = append(g.Keys, "y")
 			case "store-load":
 				lnk, err := ls.Store(linking.LinkContext{}, linkProto, src.n)
 				if err != nil {
